@@ -260,7 +260,17 @@ class Evaluator(CallMixin, StmtMixin):
             return None
         items = self.concrete_items(x)
         if items is None:
-            raise self.unmodelled("yield from a symbolic iterable", e)
+            # `yield from X` is `for v in X: yield v`
+            node = getattr(e, "_sa_loop", None)
+            if node is None:
+                node = ast.For(ast.Name("__yf_item", ast.Store()), ast.Name("__yf_iter", ast.Load()),
+                               [ast.Expr(ast.Yield(ast.Name("__yf_item", ast.Load())))], [], None)
+                ast.copy_location(node, e)
+                ast.fix_missing_locations(node)
+                e._sa_loop = node       # type: ignore[attr-defined]
+            self.frame.env["__yf_iter"] = x
+            self.exec(node)
+            return None
         for i in items:
             self._deliver(i, e)
         return None
